@@ -19,6 +19,7 @@ func init() {
 		vrtPkg + "Bool":       extVrtBool,
 		vrtPkg + "Byte":       extVrtByte,
 		vrtPkg + "Choice":     extVrtChoice,
+		vrtPkg + "ByteIn":     extVrtByteIn,
 		vrtPkg + "Assume":     extVrtAssume,
 		vrtPkg + "Assert":     extVrtAssert,
 		vrtPkg + "Reach":      extVrtReach,
@@ -74,6 +75,25 @@ func extVrtBool(fr *frame, args []value) value {
 
 func extVrtByte(fr *frame, args []value) value {
 	return fr.i.path.newVar(tagOf(args[0]), 8)
+}
+
+// ByteIn(tag, alphabet) is a symbolic byte constrained to the alphabet (no fork).
+func extVrtByteIn(fr *frame, args []value) value {
+	p := fr.i.path
+	alpha, ok := args[1].(string)
+	if !ok || len(alpha) == 0 {
+		unsupported("vrt.ByteIn needs a concrete non-empty alphabet")
+	}
+	if len(alpha) == 1 {
+		return alpha[0]
+	}
+	v := p.newVar(tagOf(args[0]), 8)
+	c := smt.False
+	for k := 0; k < len(alpha); k++ {
+		c = smt.Or(c, smt.Eq(v, smt.Const(8, uint64(alpha[k]))))
+	}
+	p.assume(c)
+	return v
 }
 
 func extVrtChoice(fr *frame, args []value) value {
